@@ -144,14 +144,15 @@ const (
 type Store struct {
 	Name string
 
-	mu       sync.Mutex
-	m        map[string]*Entry
-	t0       uint32
-	offset   uint32
-	seq      uint64
-	log      []Req
-	logging  bool
-	getEMode GetEMode
+	mu        sync.Mutex
+	m         map[string]*Entry
+	t0        uint32
+	offset    uint32
+	seq       uint64
+	log       []Req
+	logging   bool
+	getEMode  GetEMode
+	realClock bool
 
 	// fault plan: requests are counted from the moment the plan is armed.
 	faultAt  map[uint64]Fault // by 1-based index of request since arming
@@ -223,7 +224,17 @@ func (s *Store) Advance(d uint32) { s.mu.Lock(); s.offset += d; s.mu.Unlock() }
 // SetOffset sets the virtual clock to t0+off.
 func (s *Store) SetOffset(off uint32) { s.mu.Lock(); s.offset = off; s.mu.Unlock() }
 
-func (s *Store) nowLocked() uint32 { return s.t0 + s.offset }
+func (s *Store) nowLocked() uint32 {
+	if s.realClock {
+		return uint32(time.Now().Unix()) + s.offset
+	}
+	return s.t0 + s.offset
+}
+
+// SetRealClock makes the store follow the real clock (plus the offset) instead of standing
+// still at its origin: needed where the code under test derives absolute times from its own
+// clock and real elapsed time matters.
+func (s *Store) SetRealClock(on bool) { s.mu.Lock(); s.realClock = on; s.mu.Unlock() }
 
 func (s *Store) liveLocked(k string) *Entry {
 	e, ok := s.m[k]
